@@ -18,8 +18,8 @@
 //! | output structurally valid: indices in range and of the right kind, lengths exact, code within limits | `cfmodel::parse` (strict) on every output | all; boundary: `code-length-limit`, `full-constant-pool`, `operand-thresholds`, `invokeinterface-descriptors` (count byte), `dynamic-constant-descriptors` (ldc vs ldc2_w) |
 //! | an independent parser reads back exactly the same facts | `oracle::normalise` + `cfmodel::sdiff::diff(project(T), parse(out))` | all; tables that collide: `bootstrap-table`, `pool-collisions` |
 //! | every branch / switch arm / exception range / table entry designates the same instruction after rewriting | same diff, on scenes with `decor` ≥ 1 (exceptions, line numbers, local variables, type annotations anchored on the jumps, their neighbours and the end of the code) | windows, `end-of-code-tables` |
-//! | every length field exact: counts at their limit | `split-tables` (one list of 65534 / 65535 entries from several attributes must come out whole; 65536 / 65538 must be refused cleanly, never truncated), `full-constant-pool` (65531..65535 slots; renamed trees needing 1-2 entries more: written up to 65535, refused beyond) | |
-//! | … after renaming, at the constant-pool limit: "succeeds or fails cleanly", "every index in range" | `judge_pool_limit` → `judge_renamed` → `judge_tree` (same verdicts as every renamed tree) | `pool-limit-after-renaming` (c02/poollimit.rs): trees read from valid files with nearly full pools whose renamed form needs 65529..65538 (thorough 65515..65538) slots × kind of the last entries (Utf8, Class, String, Integer, Float, Long, Double, NameAndType, Fieldref, Methodref, InterfaceMethodref, MethodHandle, MethodType, Dynamic, InvokeDynamic) × site (field ConstantValue, ldc/ldc2_w operand, annotation value, bootstrap argument, member reference, class attribute / attribute name / the bootstrap table built last) × 2 renamings |
+//! | every length field exact: counts at their limit | `split-tables` (every list the reader accumulates over repeated attributes — line numbers, local variables with a descriptor / with a signature / both in one method, annotations and type annotations of class, field, method, record component and code, 22 kinds: one list of 65534 / 65535 entries from several attributes must come out whole; 65536 / 65538 must be refused cleanly, never truncated), `full-constant-pool` (65531..65535 slots; renamed trees needing 1-2 entries more: written up to 65535, refused beyond) | |
+//! | … after renaming, at the constant-pool limit: "succeeds or fails cleanly", "every index in range" | `judge_pool_limit` → `judge_renamed` → `judge_tree` (same verdicts as every renamed tree) | `pool-limit-after-renaming` (c02/poollimit.rs): trees read from valid files with nearly full pools whose renamed form needs 65531..65538 (thorough 65515..65538) slots × kind of the last entries (Utf8, Class, String, Integer, Float, Long, Double, NameAndType, Fieldref, Methodref, InterfaceMethodref, MethodHandle, MethodType, Dynamic, InvokeDynamic) × site (field ConstantValue, ldc/ldc2_w operand, annotation value, bootstrap argument, member reference, class attribute / attribute name / the bootstrap table built last) × 2 renamings |
 //! | (domain edge) descriptions only a lenient reader produces | `invokeinterface-unrepresentable` (clean error demanded: the count byte cannot be stated), `unrepresentable-code` (equal/descending lookupswitch keys, zero dimensions: no panic; an output that is invalid exactly as the input was is not charged) | |
 //! | all method sizes up to 65535 | `code-length-limit` (65528..65541, with and without tables ending at the end of the code) | |
 //! | forward/backward jumps straddling ±32767 | `single-far-jump` (18 opcodes × direction × window) | |
@@ -46,8 +46,9 @@
 //!     parameter types × 4 return types; dynamic constants of 19 descriptor shapes; a bootstrap-method table
 //!     of 3 handles × 6 argument lists in every rotation; one class holding every text and bit pattern in
 //!     every constant kind; methods ending in a multi-byte instruction with tables that end at the end of the code;
-//!     line-number tables of 65534..65538 entries spread over 2-3 attributes; lookupswitch/multianewarray operands
-//!     no class file may state;
+//!     line-number tables, local-variable (type) tables and annotation / type-annotation lists of 65534..65538 entries
+//!     spread over 2-4 attributes (the reader appends them to one list); lookupswitch/multianewarray operands no class
+//!     file may state;
 //! (d) renamed trees (c02/renamed.rs): the cases named in the clause table, each renamed by the real
 //!     `dukebox::remap::remap_class` with two remappers and written;
 //! (e) renamed trees at the pool limit (c02/poollimit.rs): renaming un-shares pool entries, so the pool the writer must
@@ -752,6 +753,13 @@ fn main() {
 		acc
 	}).reduce(Acc::new, Acc::merge);
 	run!("split-tables", acc);
+	let at_limit = spaces::limit_table_cases();
+	let n_at_limit = at_limit.len() as u64;
+	let acc = at_limit.into_par_iter().fold(Acc::new, |mut acc, (label, bytes, parsed)| {
+		vcore::watched(|| replay_text(&label, &bytes), || judge(ctx, &mut acc, &label, &bytes, STRICT, Some(parsed), false));
+		acc
+	}).reduce(Acc::new, Acc::merge);
+	run!("tables-at-limit", acc);
 	let split_kinds: std::collections::BTreeSet<String> = split.iter().filter_map(|(l, ..)| l.split('/').nth(1).map(str::to_owned)).collect();
 
 	// (d) the queued cases once more, each tree renamed by dukebox with each remapper before it is written
@@ -820,6 +828,8 @@ fn main() {
 	ctx.floor("full constant pool cases", 11, n_full);
 	ctx.floor("tables of more than 65535 entries refused cleanly", 1, total.obs("clean error where a table has more than 65535 entries"));
 	ctx.floor("split-tables: tables of up to 65535 entries written and read back equal", 2, space_equal.get("split-tables").map(|x| x.1).unwrap_or(0));
+	ctx.floor("tables-at-limit: tables of exactly 65535 (type path: 255) entries given to the writer", 10, space_equal.get("tables-at-limit").map(|x| x.0).unwrap_or(0));
+	ctx.floor("tables-at-limit: written and read back equal", 10, space_equal.get("tables-at-limit").map(|x| x.1).unwrap_or(0));
 	// every list the reader accumulates over repeated attributes: written whole with exactly 65535 entries, refused beyond
 	ctx.floor("split-tables: kinds of accumulated lists", 22, split_kinds.len() as u64);
 	ctx.floor("split-tables: kinds whose list of exactly 65535 entries was written and read back equal", split_kinds.len() as u64,
@@ -897,6 +907,7 @@ fn main() {
 			"invokeinterface_return_types": spaces::RETURN_TYPES.len(),
 			"split_tables": split.iter().map(|(l, _, n, _)| format!("{l} ({n})")).collect::<Vec<_>>(),
 			"unrepresentable_code_cases": patched.len(),
+			"tables_at_limit_cases": n_at_limit,
 			"full_pool_cases": n_full,
 			"renamed_cases": n_queue,
 			"renamed_remappers": renamed::MODES.iter().map(|m| m.name()).collect::<Vec<_>>(),
@@ -918,7 +929,7 @@ fn main() {
 		"tails": poollimit::tails().iter().map(|t| t.label()).collect::<Vec<_>>(),
 		"families": families.len(),
 		"cases": limit_cases.len(),
-		"renamings": "grow on every tail; owner on every tail outside a field (quick: on the tails with a two-slot constant among the last entries and on every third other tail)",
+		"renamings": "grow on every tail; owner on every tail outside a field (quick: on the tails with a two-slot constant among the last entries and on every sixth other tail)",
 		"warmed_attribute_names": poollimit::WARM,
 	});
 	ctx.finish(coverage, &[
